@@ -4,6 +4,8 @@ func execExtraOp(ts []string) (string, bool) {
 	switch ts[0] {
 	case "regs":
 		return execRegs(ts), true
+	case "split":
+		return execSplit(ts), true
 	}
 	return "", false
 }
